@@ -15,7 +15,7 @@ let () =
          | Ok (L (A "case" :: A id :: A ty :: _)) ->
              incr cases; cur_case := id ^ ":" ^ ty; Hashtbl.reset hash_ids; Hashtbl.reset node_ids; next_hid := 0;
              Monitors.on_case id ty line
-         | Ok (L (A "cmd" :: A ci :: _)) -> cur_cmd := ci
+         | Ok (L (A "cmd" :: A ci :: _) as sx) -> cur_cmd := ci; Monitors.on_event !cur_case !cur_cmd sx
          | Ok (L (A "call" :: A f :: args)) ->
              incr calls;
              Monitors.on_call !cur_case !cur_cmd f args;
